@@ -594,8 +594,7 @@ def judge(case, obs, rec, ctx):
     calls = obs["calls"]
     outcome = obs["outcome"]
     rec.count("ready_outcomes_checked")
-    ready_cls = "method=%s/fault=%s/provider=%s" % (attempt, ftag, case["provider"] if (
-        attempt in ("HASHEDPASSWORD", None) or prov.calls) else "-")
+    ready_cls = "method=%s/fault=%s%s" % (attempt, ftag, "/password-provider-consulted" if prov.calls else "")
 
     def served_ok(entries):
         """every post-authentication reply is a complete 2xx (signal/names may be 5xx)"""
@@ -699,25 +698,55 @@ def materialise(idx, base, seed):
     return case
 
 
+def stratum(block, base):
+    """structural stratum of an enumerated case (for the stratified quick subset)"""
+    best, blocked = reference(base)
+    adv = "+".join(m for m in PREF if m in base["methods"])
+    if block == "A":
+        return ("A", adv, base["cookie"], provider_class(base["provider"]))
+    if block == "B":
+        return ("B", fault_tag(base["fault"]), base["provider"])
+    return ("C", fault_tag(base["fault"]), best, blocked, base["provider"] in ("deferred-late", "coroutine-late",
+                                                                              "deferred-late-fail"))
+
+
+def select(cases, fractions, seed, min_per_stratum=3):
+    """indices of the cases to run: everything when the block's fraction is 1, otherwise a
+    seed-dependent sample of every stratum (at least `min_per_stratum` of each)"""
+    groups = {}
+    chosen = []
+    for idx, (block, base) in enumerate(cases):
+        if fractions[block] >= 1.0:
+            chosen.append(idx)
+        else:
+            groups.setdefault(stratum(block, base), []).append(idx)
+    for key in sorted(groups, key=repr):
+        idxs = groups[key]
+        k = min(len(idxs), max(min_per_stratum, int(round(fractions[key[0]] * len(idxs)))))
+        chosen.extend(gen.rnd_for(seed, "C04sel", repr(key)).sample(idxs, k))
+    return sorted(chosen), len(groups)
+
+
 def run_shard(spec, rec):
     ctx = Ctx()
     try:
         cases = enumerate_cases()
         frac = spec["fractions"]
         complete = all(v >= 1.0 for v in frac.values())
+        chosen, nstrata = select(cases, frac, spec["seed"])
         sampled = 0
-        for idx, (block, base) in enumerate(cases):
-            if idx % spec["nshards"] != spec["index"]:
+        for n, idx in enumerate(chosen):
+            if n % spec["nshards"] != spec["index"]:
                 continue
-            if frac[block] < 1.0 and gen.rnd_for(spec["seed"], "C04sel", idx).random() >= frac[block]:
-                continue
-            case = materialise(idx, base, spec["seed"])
+            case = materialise(idx, cases[idx][1], spec["seed"])
             run_case(case, rec, ctx)
             if sampled == 0 or (sampled == 1 and case["fault"]):
                 rec.sample(case)
                 sampled += 1
         if complete:
             rec.enumerated("orderings x cookie conditions x providers (correct server) and one fault per step for every ordering")
+        elif spec["index"] == 0:
+            rec.count("strata_sampled", nstrata)
         rec.count("distinct_client_nonces", len(ctx.nonces))
     finally:
         ctx.close()
@@ -736,7 +765,7 @@ def replay(case, rec):
 def plan(tier, seed):
     n = 16
     if tier == "quick":
-        fr = {"A": 0.5, "B": 0.2, "C": 0.15}
+        fr = {"A": 0.3, "B": 0.15, "C": 0.1}
     else:
         fr = {"A": 1.0, "B": 1.0, "C": 1.0}
     return [{"nshards": n, "index": i, "fractions": fr,
